@@ -245,6 +245,12 @@ def run(tier, seed):
         iseg.append(line("src", "o_%s_%s" % (on_, f), sx(ob)))
         for fam in ("s", "d", "e", "dd", "ee", "de", "ed", "sds") if f == "opml" else ("d", "e", "dd", "ee", "de", "ed"):      # (a ZIP archive cannot be handed over as a C string)
             iseg.append(line("opml2text", fam, "o_%s_%s" % (on_, f), f))
+    # a live engine that reads outlines (EXT_PARSE_OPML): converting, turning the outline into text, converting again -- the second conversion is the first one's equal
+    for (on_, f), ob in sorted(outl.items()):
+        if f != "opml": continue
+        xo = docs.STD | E["PARSE_OPML"]; sid = "o_%s_%s" % (on_, f)
+        iseg += [conv_line("s_conv", sid, ("html", xo, "en")), line("e_new", 0, sid, xo, 0), line("e_conv", 0, docs.FMT["html"]), line("e_opml2text", 0), line("e_conv", 0, docs.FMT["html"]),
+                 line("e_opml2text", 0), line("e_conv", 0, docs.FMT["latex"]), line("e_free", 0), conv_line("s_conv", sid, ("latex", xo, "en"))]
     r1 = run_harness(exe, [iseg])[0]
     trace3 = [dict(e="reset")] + to_trace_events(r1["events"])
     if r1["status"] != "ok": problems.append(("crash", iseg, r1))
